@@ -26,37 +26,44 @@ func init() { register("C12", runC12) }
 // C12: webhooks deactivate at max_tries consecutive failures, reset on success.
 //
 // input  (one line, ';' separated, the head is the configuration):
-//   "mt=<max_tries> mode=<s|p> [up=<0..5>];<op>;<op>;..."
-//     up: url profile = which four concrete url STRINGS the ids 0..3 stand for (c12URLs): 0 plain /u<i>; 1 trailing
-//         slashes (/hook, /hook/, /hook//, /hook/x/); 2 leading/trailing blanks; 3 upper-case scheme/host, explicit port,
-//         fragment; 4 query string, fragment, percent-encoded characters; 5 600-character paths differing in the last
-//         character / a trailing slash.  Every operation addresses a webhook by exactly the string of its id; different
-//         strings are different webhooks; the POST must go to exactly the registered url (scripted client: the url
-//         argument verbatim; production client: Host + request-URI on the wire).
-//     mode s: scripted notification.WebhookTargetClient injected into the real WebhooksService
-//     mode p: the PRODUCTION client (transports/http/client) posting to an httptest server
-//   ops:  R<u>:<b|B|c|n>:<h>:<t>   POST /api/v1/webhook  url u (0..3), auth kind bearer ("bearer")/bearer ("BeArEr")/
-//                                   custom header X-H<h>/none, token tok<t>
-//         D<u>                      DELETE /api/v1/webhook?url=
-//         N<o0><o1><o2><o3>         WebhooksService.Notify(event) with the outcome of the call to url i:
-//                                   k=200 c=201 n=404 s=503 t=transport error b=unreadable body (status 200)
-//                                   0..6 = status 200, A..G = status 503, the body BREAKS (read error / connection closed)
-//                                   after 0, 1, 254, 255, 256, 1000, 4096 bytes of a longer announced body: any read error
-//                                   is a failed delivery whatever was read before.  Non-200 replies carry a body of 302 bytes.
-//         X<0..3>                   a request the endpoint must reject (4xx) without touching anything: POST without url,
-//                                   POST with an unparsable body, GET without url, DELETE without url
-//         Z                         restart (Stack.Reopen: close the SQLite file, rebuild repositories + services)
+//
+//	"mt=<max_tries> mode=<s|p> [up=<0..5>];<op>;<op>;..."
+//	  up: url profile = which four concrete url STRINGS the ids 0..3 stand for (c12URLs): 0 plain /u<i>; 1 trailing
+//	      slashes (/hook, /hook/, /hook//, /hook/x/); 2 leading/trailing blanks; 3 upper-case scheme/host, explicit port,
+//	      fragment; 4 query string, fragment, percent-encoded characters; 5 600-character paths differing in the last
+//	      character / a trailing slash.  Every operation addresses a webhook by exactly the string of its id; different
+//	      strings are different webhooks; the POST must go to exactly the registered url (scripted client: the url
+//	      argument verbatim; production client: Host + request-URI on the wire).
+//	  mode s: scripted notification.WebhookTargetClient injected into the real WebhooksService
+//	  mode p: the PRODUCTION client (transports/http/client) posting to an httptest server
+//	ops:  R<u>:<b|B|c|n>:<h>:<t>   POST /api/v1/webhook  url u (0..3), auth kind bearer ("bearer")/bearer ("BeArEr")/
+//	                                custom header X-H<h>/none, token tok<t>
+//	      D<u>                      DELETE /api/v1/webhook?url=
+//	      N<o0><o1><o2><o3>         WebhooksService.Notify(event) with the outcome of the call to url i:
+//	                                k=200 c=201 n=404 s=503 t=transport error b=unreadable body (status 200)
+//	                                0..6 = status 200, A..G = status 503, the body BREAKS (read error / connection closed)
+//	                                after 0, 1, 254, 255, 256, 1000, 4096 bytes of a longer announced body: any read error
+//	                                is a failed delivery whatever was read before.  Non-200 replies carry a body of 302 bytes.
+//	      X<0..3>                   a request the endpoint must reject (4xx) without touching anything: POST without url,
+//	                                POST with an unparsable body, GET without url, DELETE without url
+//	      Z                         restart (Stack.Reopen: close the SQLite file, rebuild repositories + services)
+//	      Z<m>                      restart with webhook.max_tries = m (1..9): the limit in force from then on, for the
+//	                                webhooks registered before as well as after it; plain Z keeps the limit
+//
 // EVERY wait has a deadline and ends as an observable, never as a hang: an op (with its GETs) that does not finish
-//   within c12OpDeadline is reported as "NOTIFY-BLOCKED|<POSTs so far>|<GETs>" / "OP-TIMEOUT <op>||<GETs>" and the rest of
-//   the case is "SKIPPED||"; so is the rest after two ops slower than c12SlowOp ("SKIPPED slow||").  After
-//   c12MaxCutCases such cases the run stops generating (they are failures already).  Cases are flushed as they are written.
+//
+//	within c12OpDeadline is reported as "NOTIFY-BLOCKED|<POSTs so far>|<GETs>" / "OP-TIMEOUT <op>||<GETs>" and the rest of
+//	the case is "SKIPPED||"; so is the rest after two ops slower than c12SlowOp ("SKIPPED slow||").  After
+//	c12MaxCutCases such cases the run stops generating (they are failures already).  Cases are flushed as they are written.
+//
 // observable: for every op  "<response>|<POSTs, sorted>|<GET u0>,<GET u1>,<GET u2>,<GET u3>", joined by " ; ",
-//   followed by " ; DB " + the raw webhooks table in rowid order.
-//   view of a webhook:  e<errorsCount>a<0|1>s<lastEmitStatus>t<lastEmitTimestamp>  or "404"
-//     lastEmitStatus canonical: "-" (empty), "<code>:<body>", TE (transport error), BE (body read error)
-//     lastEmitTimestamp canonical: 0 = never (Go zero time or the column default 1970-01-01), otherwise the 1-based
-//     index of the op during which the instant fell
-//   POST:  u<i>/<method>/<content type>/<body ok?>/<other headers name=value&...>   ("_" = empty string, ' ' -> '+')
+//
+//	followed by " ; DB " + the raw webhooks table in rowid order.
+//	view of a webhook:  e<errorsCount>a<0|1>s<lastEmitStatus>t<lastEmitTimestamp>  or "404"
+//	  lastEmitStatus canonical: "-" (empty), "<code>:<body>", TE (transport error), BE (body read error)
+//	  lastEmitTimestamp canonical: 0 = never (Go zero time or the column default 1970-01-01), otherwise the 1-based
+//	  index of the op during which the instant fell
+//	POST:  u<i>/<method>/<content type>/<body ok?>/<other headers name=value&...>   ("_" = empty string, ' ' -> '+')
 const c12NU = 4
 
 type c12Post struct {
@@ -544,8 +551,18 @@ func c12Exec(c *Ctx, input string, seq int) (obs string) {
 	var steps []string
 	prevA, prevE := [c12NU]int{-1, -1, -1, -1}, [c12NU]int{}
 	slow, cut := 0, ""
+	mt0 := mt
 	for i, op := range toks[1:] {
 		idx := i + 1
+		if len(op) == 2 && op[0] == 'Z' && op[1] >= '1' && op[1] <= '9' && cut == "" {
+			switch m := int(op[1] - '0'); {
+			case m < mt:
+				c.Count("event:restart-lowers-max_tries")
+			case m > mt:
+				c.Count("event:restart-raises-max_tries")
+			}
+			mt = int(op[1] - '0')
+		}
 		if cut != "" {
 			steps = append(steps, cut+"||")
 			continue
@@ -607,7 +624,11 @@ func c12Exec(c *Ctx, input string, seq int) (obs string) {
 				isN := strings.HasPrefix(op, "N")
 				switch {
 				case isN && prevA[j] == 1 && a == 0:
-					c.Count(fmt.Sprintf("event:deactivated mt=%d at-count=%d", mt, e))
+					if mt != mt0 {
+						c.Count(fmt.Sprintf("event:deactivated after the limit changed %d->%d at-count=%d", mt0, mt, e))
+					} else {
+						c.Count(fmt.Sprintf("event:deactivated mt=%d at-count=%d", mt, e))
+					}
 				case isN && prevA[j] == 1 && a == 1 && prevE[j] > 0 && e == 0:
 					c.Count("event:reset-by-200")
 				case isN && prevA[j] == 1 && a == 1 && e > prevE[j]:
@@ -764,6 +785,17 @@ func c12Step(r *c12Run, op string, idx int) (res string) {
 			return "REOPEN-ERROR||"
 		}
 		r.s = s2
+	case len(op) == 2 && op[0] == 'Z' && op[1] >= '1' && op[1] <= '9':
+		// a restart with another webhook.max_tries: same database file, same options except the limit
+		o := r.s.Opts
+		o.MaxTries = int(op[1] - '0')
+		r.s.Close()
+		s2, err := NewStack(o)
+		if err != nil {
+			r.s = nil
+			return "REOPEN-ERROR||"
+		}
+		r.s = s2
 	default:
 		return "BAD-OP||"
 	}
@@ -789,7 +821,11 @@ func c12GenOps(c *Ctx, n int, mt int) []string {
 		case x < 30:
 			ops = append(ops, fmt.Sprintf("D%d", rng.Intn(c12NU)))
 		case x < 36:
-			ops = append(ops, "Z")
+			if rng.Intn(2) == 0 {
+				ops = append(ops, fmt.Sprintf("Z%d", 1+rng.Intn(6)))
+			} else {
+				ops = append(ops, "Z")
+			}
 		case x < 39:
 			ops = append(ops, fmt.Sprintf("X%d", rng.Intn(4)))
 		default:
@@ -902,6 +938,31 @@ func runC12(c *Ctx) error {
 	for _, mode := range []string{"p", "s"} {
 		do(fmt.Sprintf("mt=5 mode=%s;R0:b:0:1;R1:c:1:2;R2:n:0:0;R3:b:0:3;Nssss;Nnncc;Nkkkk;Nscns;Nkkkk;Nkkkk;Z;Nnnnn;Nkkkk", mode), "systematic-non200-bodies")
 		do(fmt.Sprintf("mt=5 mode=%s;R0:b:0:1;Nskkk;Nnkkk;Nckkk;Nskkk;Nkkkk;Nkkkk;Nskkk;Nkkkk", mode), "systematic-non200-bodies")
+	}
+	// systematic: a restart CHANGES webhook.max_tries, in both directions, with failing streaks that straddle it and
+	// webhooks registered before (u0, u1) and after (u2) it; the limit in force after the restart is the only one that counts
+	rot := 0
+	for _, mode := range []string{"s", "p"} {
+		{
+			for _, ch := range [][2]int{{6, 3}, {5, 2}, {4, 1}, {2, 5}, {1, 4}, {3, 6}, {3, 3}} {
+				from, to := ch[0], ch[1]
+				for before := 0; before < from && before <= 4; before++ {
+					o := "stb3n5"[rot%6] // the kind of failure rotates over the cases
+					rot++
+					f := func(pat string) string { return "N" + strings.ReplaceAll(pat, "f", string(o)) }
+					ops := []string{fmt.Sprintf("mt=%d mode=%s", from, mode), "R0:b:0:1", "R1:c:1:2"}
+					for i := 0; i < before; i++ {
+						ops = append(ops, f("fkkk"))
+					}
+					ops = append(ops, fmt.Sprintf("Z%d", to), "R2:n:0:0")
+					for i := 0; i < to+1; i++ {
+						ops = append(ops, f("fkfk"))
+					}
+					ops = append(ops, "R0:b:0:1", f("ffkk"), "Z", f("ffkk"), f("ffkk"))
+					do(strings.Join(ops, ";"), "systematic-limit-change")
+				}
+			}
+		}
 	}
 	// systematic: every url profile x both clients: the four urls side by side (they are four different webhooks),
 	// events, delete / query / re-register by exactly the string that was registered
